@@ -3,6 +3,7 @@ package main
 import (
 	"math/big"
 
+	sdk "github.com/cosmos/cosmos-sdk/types"
 	authtypes "github.com/cosmos/cosmos-sdk/x/auth/types"
 
 	st "github.com/irismod/service/types"
@@ -32,3 +33,5 @@ type baseOracle struct{}
 
 func (baseOracle) Invariant(x *OCtx, v *View, m *Mon) []Violation { return nil }
 func (baseOracle) Step(x *OCtx, t *Trans) []Violation             { return nil }
+
+func addrBech(a []byte) string { return sdk.AccAddress(a).String() }
